@@ -227,9 +227,10 @@ class Batch:
   def let(self, name, value):
     self.setup_lines.append('let %s %s' % (name, value))
 
-  def add(self, line, impl, tag='', pred=None, info=None, nontrivial=True):
+  def add(self, line, impl, tag='', pred=None, info=None, nontrivial=True, canon=None):
+    """canon: optional canonicaliser applied to the MODEL's response before comparing."""
     self.items.append(dict(line=line, impl=impl, tag=tag, pred=pred, info=info,
-                           nontrivial=nontrivial))
+                           nontrivial=nontrivial, canon=canon))
     self.tags[tag] = self.tags.get(tag, 0) + 1
 
   def run(self):
@@ -239,6 +240,8 @@ class Batch:
     self.model_s = time.time() - t0
     div = []
     for it, m in zip(self.items, out):
+      if it.get('canon') is not None:
+        m = it['canon'](m)
       it['model'] = m
       if m != it['impl']:
         div.append(it)
